@@ -110,10 +110,11 @@ func gSel(sel []int) string {
 type headView struct {
 	io  map[int][]tsdbx.Chunk // oldest first
 	ooo map[int][]tsdbx.Sample
+	ref map[int]uint64 // memSeries ref of the series present in the head
 }
 
 func view(d *tsdbx.DB, n int) headView {
-	hv := headView{io: map[int][]tsdbx.Chunk{}, ooo: map[int][]tsdbx.Sample{}}
+	hv := headView{io: map[int][]tsdbx.Chunk{}, ooo: map[int][]tsdbx.Sample{}, ref: map[int]uint64{}}
 	names := map[string]int{}
 	for i := 0; i < n; i++ {
 		names[lblName(i)] = i
@@ -124,6 +125,7 @@ func view(d *tsdbx.DB, n int) headView {
 			panic("unknown series in head: " + s.Labels)
 		}
 		hv.io[i] = append(hv.io[i], s.InOrder...)
+		hv.ref[i] = s.Ref
 		for _, c := range s.OOO {
 			hv.ooo[i] = append(hv.ooo[i], c.Samples...)
 		}
@@ -199,6 +201,7 @@ type runner struct {
 	classes map[string]int
 	goViol  []string
 	nextVal int64
+	stopped bool // the implementation went somewhere the model does not follow: no further steps
 	// all timestamps ever acknowledged, per series (generator steering only)
 	acked map[int][]int64
 }
@@ -251,7 +254,8 @@ func (r *runner) apply(o hop) bool {
 	d := hopDesc{Op: opNames[o.Kind]}
 	switch o.Kind {
 	case opTx, opRollback:
-		before := multiset(view(r.d, r.n))
+		vBefore := view(r.d, r.n)
+		before := multiset(vBefore)
 		tombs := r.d.HeadTombstones()
 		reqs := make([]tsdbx.AppendReq, len(o.Reqs))
 		for i, q := range o.Reqs {
@@ -262,7 +266,18 @@ func (r *runner) apply(o hop) bool {
 			r.goViol = append(r.goViol, fmt.Sprintf("%s returned %v", opNames[o.Kind], err))
 			return false
 		}
-		after := multiset(view(r.d, r.n))
+		vAfter := view(r.d, r.n)
+		after := multiset(vAfter)
+		// series records written by this appender: memSeries created by it (new ref)
+		var logged []string
+		for i := 0; i < r.n; i++ {
+			if ref, ok := vAfter.ref[i]; ok {
+				if old, was := vBefore.ref[i]; !was || old != ref {
+					logged = append(logged, fmt.Sprintf("(%s, None)", gallina.Z(int64(i))))
+					r.classes["series-created"]++
+				}
+			}
+		}
 		for k, c := range after {
 			after[k] = c - before[k]
 			delete(before, k)
@@ -273,7 +288,7 @@ func (r *runner) apply(o hop) bool {
 			}
 		}
 		d.Reqs = o.Reqs
-		var accs, logged []string
+		var accs []string
 		for i, q := range o.Reqs {
 			r.classes["append-"+res[i].String()]++
 			cls := ""
@@ -303,7 +318,7 @@ func (r *runner) apply(o hop) bool {
 				r.acked[q.S] = append(r.acked[q.S], q.T)
 			}
 			if res[i] == tsdbx.OK && o.Kind == opTx {
-				logged = append(logged, fmt.Sprintf("(%s, %s)", gallina.Z(int64(q.S)), gSample(q.T, q.V)))
+				logged = append(logged, fmt.Sprintf("(%s, Some (%s))", gallina.Z(int64(q.S)), gSample(q.T, q.V)))
 			}
 		}
 		for k, c := range after {
@@ -353,6 +368,16 @@ func (r *runner) apply(o hop) bool {
 		if err := r.d.Reopen(); err != nil {
 			r.goViol = append(r.goViol, fmt.Sprintf("Close/Open returned %v", err))
 			return false
+		}
+		for _, m := range r.d.Logs() {
+			if strings.Contains(m, "on-disk chunks failed") {
+				// Head.Init rejected the head chunk files (out-of-sequence m-mapped chunks left behind by
+				// earlier truncations), reset the in-memory state and rebuilt the head from the WAL only.
+				// Not modelled: the history ends before this restart.
+				r.classes["stopped-restart-mmap-files-rejected"]++
+				r.stopped = true
+				return false
+			}
 		}
 		after := view(r.d, r.n)
 		var rl []string
@@ -412,6 +437,11 @@ func (r *runner) apply(o hop) bool {
 		}
 		d.Mint, d.Maxt, d.Sel = &o.Mint, &o.Maxt, o.Sel
 		r.steps = append(r.steps, fmt.Sprintf("SQuery %s %s %s %s", gallina.Z(o.Mint), gallina.Z(o.Maxt), gSel(o.Sel), g))
+	}
+	if os.Getenv("C01_TRACE") != "" {
+		mi, ma, mv := r.d.HeadTimes()
+		omi, oma := r.d.HeadOOOTimes()
+		fmt.Fprintf(os.Stderr, "%-16s head=[%d,%d] minValid=%d ooo=[%d,%d] blocks=%v\n", opNames[o.Kind], mi, ma, mv, omi, oma, r.d.Blocks())
 	}
 	r.classes["op-"+opNames[o.Kind]]++
 	r.descs = append(r.descs, d)
@@ -663,7 +693,7 @@ func main() {
 				break
 			}
 		}
-		if fx == nil {
+		if fx == nil && !r.stopped {
 			r.apply(fullQuery(n, false))
 			r.apply(fullQuery(n, true))
 		}
@@ -684,6 +714,12 @@ func main() {
 	}
 
 	cp := corpus()
+	if v := os.Getenv("C01_ONLY"); v != "" { // debugging aid: run one generated case
+		var idx int
+		fmt.Sscan(v, &idx)
+		runCase(idx, nil)
+		return
+	}
 	total := len(cp) + f.Count(30, 1200)
 	outs := make([]outcome, total)
 	var wg sync.WaitGroup
